@@ -7,16 +7,17 @@
 #include "../models/msggen.h"
 #include <rtosc/thread-link.h>
 #include <rtosc/ports.h>
+#include <rtosc/arg-ext.h>
 #include <cstdarg>
 #include <climits>
 
 using namespace sim; using namespace msggen;
 
 enum { ST_RUNS, ST_EVALS, ST_MSG, ST_BUNDLE, F_CAP_SHORT, F_CAP_EXACT, F_CAP_ZERO, F_CAP_GENEROUS, F_LINK_MAXMSG, F_REPLY_8192,
-       P_VARARGS, P_ARRAY, P_ARGVAL, P_NULLBUF, P_NESTED, P_EMPTY_BUNDLE, P_NULL_BLOB, P_LINK_DROPPED, P_LINK_PASSED, P_REPLY_TOO_BIG, P_REPLY_FITS, P_BIG, P_CTOR_DISAGREE, ST_N };
+       P_VARARGS, P_ARRAY, P_ARGVAL, P_NULLBUF, P_NESTED, P_EMPTY_BUNDLE, P_NULL_BLOB, P_LINK_DROPPED, P_LINK_PASSED, P_REPLY_TOO_BIG, P_REPLY_FITS, P_BIG, P_CTOR_DISAGREE, P_AV_RANGE, ST_N };
 static const char *STAT_NAMES[ST_N] = { "runs", "evaluations", "objects.messages", "objects.bundles", "fault.capacity_short", "fault.capacity_exact", "fault.capacity_zero", "fault.capacity_generous", "fault.link_maxmsg_around_size", "fault.reply_buffer_8192_boundary",
        "probe.varargs_constructor", "probe.array_constructor", "probe.argval_constructor", "probe.null_buffer_size_query", "probe.nested_bundle", "probe.empty_bundle", "probe.null_blob", "probe.link_dropped_oversize", "probe.link_passed_exact_fit",
-       "probe.reply_larger_than_buffer", "probe.reply_fits_buffer", "probe.object_over_256_bytes", "constructors_disagree_on_size" };
+       "probe.reply_larger_than_buffer", "probe.reply_fits_buffer", "probe.object_over_256_bytes", "constructors_disagree_on_size", "probe.argval_list_with_range" };
 
 static const char *VT[] = {"", "i", "s", "b", "f", "is", "si", "sb", "ifs", "hd", "tS", "c", "r", "m", "TFNI", "i[ii]", "sbi", "bs", "dh", "ssss", "[sT]", "ib", "NIf", "mm"};
 static const int NVT = sizeof VT / sizeof VT[0];
@@ -96,7 +97,9 @@ struct CapWorld : World {
             if (ctor == 0) { call_va([&](const char *, auto...) { return (size_t)0; }, p.types, p, &va_ok); if (!va_ok) ctor = 1; }
             bool brackets = p.types.find('[') != std::string::npos || p.types.find(']') != std::string::npos;
             if (ctor == 2 && brackets) ctor = 1;    // arg-val lists spell arrays differently; out of scope here
-            std::vector<rtosc_arg_val_t> av; if (ctor == 2) { size_t vi = 0; for (auto &a : m.args) { rtosc_arg_val_t x; memset(&x, 0, sizeof x); x.type = a.tag; if (carries_value(a.tag)) x.val = p.args[vi++]; av.push_back(x); } }
+            std::vector<rtosc_arg_val_t> av; if (ctor == 2) { size_t vi = 0; for (auto &a : m.args) { rtosc_arg_val_t x; memset(&x, 0, sizeof x); x.type = a.tag; if (carries_value(a.tag)) x.val = p.args[vi];
+                    if (a.rep > 1) { rtosc_arg_val_t r; memset(&r, 0, sizeof r); r.type = '-'; rtosc_av_rep_num_set(&r, a.rep); rtosc_av_rep_has_delta_set(&r, 0); av.push_back(r); stat_add(P_AV_RANGE); }   // "rep x value" as one range of the arg-val list
+                    av.push_back(x); if (carries_value(a.tag)) vi += a.rep; } }
             stat_add(ctor == 0 ? P_VARARGS : ctor == 1 ? P_ARRAY : P_ARGVAL);
             auto construct = [&](char *buf, size_t cap) -> size_t {
                 if (ctor == 0) { bool ok; return call_va([&](const char *t, auto... args) { return rtosc_message(buf, cap, m.addr.c_str(), t, args...); }, p.types, p, &ok); }
